@@ -237,12 +237,14 @@ func init() {
 				curPC.Covers[toGoString(args[1])] = true
 			}
 		} else {
-			// reachable with the goal true on this path?  Decide with
-			// the model first, then the solver; never forks.
-			curPC.ensureModel()
-			if curPC.eval(t) != 0 {
-				curPC.Covers[toGoString(args[1])] = true
-			} else if r, _ := curPC.queryWith(t, false); r == "sat" {
+			// reachable with the goal true on this path?  Cheap checks
+			// only (facts, domains, the current model); never forks and
+			// never asks the solver.
+			if v, ok := curPC.decide(t); ok {
+				if v {
+					curPC.Covers[toGoString(args[1])] = true
+				}
+			} else if curPC.modelValid && curPC.eval(t) != 0 {
 				curPC.Covers[toGoString(args[1])] = true
 			}
 		}
@@ -445,6 +447,10 @@ type TaskResult struct {
 type Worker struct {
 	P   *Program
 	sol *solver
+	tt  *termTable
+	key string // harness+args the term table belongs to
+	mev, uev, pev evaluator
+	prevDec []int
 }
 
 func NewWorker(p *Program) *Worker { return &Worker{P: p} }
@@ -483,15 +489,51 @@ func (w *Worker) Run(t *Task) *TaskResult {
 		}
 		prefix := pending[len(pending)-1]
 		pending = pending[:len(pending)-1]
-		tt := newTermTable()
-		if w.sol == nil {
-			w.sol = newSolver(tt)
+		key := fmt.Sprintf("%s%v", t.Harness, t.Args)
+		retain := -1
+		if w.tt == nil || w.key != key || len(w.tt.all) > 400000 || res.Paths == 0 {
+			// new obligation (or first path of a task): fresh terms and solver state
+			w.tt = newTermTable()
+			w.key = key
+			if w.sol == nil {
+				w.sol = newSolver(w.tt)
+			} else {
+				w.sol.resetAll(w.tt)
+			}
 		} else {
-			w.sol.reset(tt)
+			// keep the solver scopes of the decisions shared with the previous path
+			for retain = 0; retain < len(prefix) && retain < len(w.prevDec) && prefix[retain] == w.prevDec[retain]; retain++ {
+			}
+			if retain > w.sol.depth {
+				retain = w.sol.depth
+			}
+			w.sol.popTo(retain)
 		}
-		pc := &pathCtx{tt: tt, sol: w.sol, prefix: prefix}
+		tt := w.tt
+		w.mev.env = nil
+		w.mev.next()
+		pc := &pathCtx{tt: tt, sol: w.sol, prefix: prefix, retain: retain, mev: &w.mev, uev: &w.uev, pev: &w.pev}
 		curTT, curPC = tt, pc
 		outcome := runOnce(w.P, t)
+		if !strings.HasPrefix(outcome, "stop:") {
+			// discharge the queued assertions of this path
+			func() {
+				defer func() {
+					if r := recover(); r != nil {
+						if ps, ok := r.(pathStop); ok {
+							outcome = "stop:" + ps.reason
+						} else {
+							panic(r)
+						}
+					}
+				}()
+				pc.flushAsserts()
+			}()
+		}
+		w.prevDec = append(w.prevDec[:0], pc.decisions...)
+		if w.sol.depth > len(pc.decisions) {
+			w.sol.popTo(len(pc.decisions))
+		}
 		res.Paths++
 		res.Decisions += len(pc.decisions)
 		res.Asserts += pc.nAsserts
@@ -655,6 +697,8 @@ func runOnce(p *Program, t *Task) (outcome string) {
 	i.runtimeErrorString = runtimePkg.Type("errorString").Object().Type()
 	initReflect(i)
 	curInterp = i
+	pathSteps = 0
+	pathDeadline = time.Now().Add(30 * time.Second)
 	resetModels(t)
 	for _, pkg := range i.prog.AllPackages() {
 		for _, m := range pkg.Members {
